@@ -322,3 +322,8 @@ def run(rep: Report, prog: Program, tier: str) -> None:
     rep.rule("C13-RESETQ", "overlapping close() calls: the reset queue is restarted after each completed request", min_instances=1)
     from .common import reset_rekick_rule
     reset_rekick_rule(rep, prog, PROP, "C13-RESETQ")
+
+    # ---------------- C13-CLOSEALL (shared with C19)
+    rep.rule("C13-CLOSEALL", "closing the association closes the channels in every container that can hold one", min_instances=2)
+    from .common import close_all_channels_rule
+    close_all_channels_rule(rep, prog, PROP, "C13-CLOSEALL")
